@@ -141,7 +141,7 @@ PROPS["C17"] = dict(
 READY = ["C03", "C04", "C05", "C06", "C07", "C08", "C09", "C10", "C11", "C12", "C13", "C14", "C15", "C16", "C17", "C18", "C19", "C20"]
 
 # workloads implemented entirely in vcore (no format crates): run through the vcore-run binary
-for _p in ("SELF", "C03", "C09", "C10", "C11", "C12", "C13", "C16", "C19", "C20"):
+for _p in ("SELF", "C09", "C10", "C11", "C12", "C13", "C19", "C20"):
     PROPS[_p]["core"] = True
 
 PROPS["C07"] = dict(
